@@ -9,7 +9,9 @@ Correspondence (Model/C18.v evaluated by vm_compute vs. the real code):
   get_compensation_matrix / correct_crosstalk.
 Property oracle (model independent, on the real code): refilling the
 extracted contour reproduces the mask; contour points are exactly the
-boundary pixels; translation/axis-swap/rotation laws of the inertia
+boundary pixels; no feature function modifies its input arrays and
+every feature of a contour object is independent of what was computed
+from that object before; translation/axis-swap/rotation laws of the inertia
 features; scaling/orientation/translation laws and convergence of the
 volume; brightness statistics recomputed with exact fractions, offsets
 one-to-one; spill followed by correction is the identity.
@@ -37,7 +39,13 @@ RULE = ("seven case families: (mask) connected hole-free masks - 4/8-"
         "resolution; (bright) 1-3 events of 8/16 bit images, backgrounds, "
         "offsets as None/scalar/list/per-event array, single 2D/3D/list "
         "containers; (crosstalk) non-negative dyadic spill matrices incl. "
-        "negative and singular ones, scalar and array signals; (dataset) "
+        "negative and singular ones, scalar and array signals; (sequence) "
+        "float64/float32/int contours (polygons with dyadic vertices, sampled "
+        "tilted ellipses, mask contours) as ndarray, list of ndarrays and "
+        "contour column of a dict dataset, 2-8 features (raw, cvx, prnc, "
+        "tilt, moments, volume) asked of the SAME object in random order, "
+        "each compared bit-for-bit with a fresh copy; every feature call of "
+        "every family is wrapped by an input-immutability guard; (dataset) "
         "ancillary features of in-memory datasets. A case is non-trivial "
         "when the implementation returned a value (not an error/nan) that "
         "was compared; distinct = different generated input")
@@ -105,7 +113,14 @@ HEADER = ("From Coq Require Import ZArith QArith List Bool.\n"
 # --------------------------------------------------------------------------
 # rendering
 # --------------------------------------------------------------------------
+def zl(xs):
+    """list Z literal; the empty list carries its type"""
+    return common.zlist(xs) if len(xs) else "(@nil Z)"
+
+
 def r_pts(pts):
+    if not len(pts):
+        return "(@nil pt)"
     return "[" + "; ".join("(%s, %s)" % (common.zlit(p[0]), common.zlit(p[1]))
                            for p in pts) + "]"
 
@@ -349,11 +364,12 @@ def _largest(m):
     return lab == (1 + int(np.argmax(sizes)))
 
 
-def enc_contour_call(mask):
+def enc_contour_call(mask, g=None):
     """get_contour on one mask -> flat encoding as in run_get_contour"""
     from dclab.features import contour as fc
+    get_contour = g(fc.get_contour) if g else fc.get_contour
     try:
-        c = fc.get_contour(mask)
+        c = get_contour(mask)
     except fc.NoValidContourFoundError:
         return [2], None
     except IndexError:
@@ -595,6 +611,68 @@ class Ctx:
         self.run.oracle_failure(case, desc, finding)
 
 
+# --------------------------------------------------------------------------
+# purity guard: "obeys its definition" includes "does not modify the
+# caller's arrays".  Every call of a feature function made by this harness
+# goes through guard(): all ndarrays reachable from the arguments (through
+# lists, tuples, dicts and list-like dataset columns) must be bit-identical
+# (dtype, shape, bytes) before and after the call.
+# --------------------------------------------------------------------------
+def _snap(obj, depth=0):
+    np = _np()
+    if isinstance(obj, np.ndarray):
+        return ("a", obj.dtype.str, obj.shape, obj.tobytes())
+    if isinstance(obj, (str, bytes, int, float, bool, type(None))) or \
+            np.isscalar(obj):
+        return ("v", repr(obj))
+    if isinstance(obj, dict):
+        return ("d", [(repr(k), _snap(v, depth + 1)) for k, v in obj.items()])
+    if isinstance(obj, (list, tuple)) or (
+            hasattr(obj, "__len__") and hasattr(obj, "__getitem__")
+            and depth < 3):
+        try:
+            return ("l", [_snap(obj[i], depth + 1) for i in range(len(obj))])
+        except Exception:
+            return ("o", type(obj).__name__)
+    return ("o", type(obj).__name__)
+
+
+def guard(ctx, case):
+    """returns g with g(fn) = fn wrapped by the input-immutability check"""
+    import functools
+    import inspect
+
+    def g(fn):
+        name = getattr(fn, "__name__", repr(fn))
+
+        @functools.wraps(fn)
+        def wrapped(*a, **k):
+            before = [_snap(x) for x in a] + [_snap(v) for v in k.values()]
+            try:
+                return fn(*a, **k)
+            finally:
+                after = [_snap(x) for x in a] + [_snap(v) for v in k.values()]
+                if before != after:
+                    names = ["#%d" % i for i in range(len(a))] + list(k)
+                    bad = [n for n, x, y in zip(names, before, after) if x != y]
+                    ctx.run.count("guard:modified:" + name)
+                    ctx.fail(case, "%s modified the caller's input array(s) "
+                             "(argument %s)" % (name, ", ".join(bad)))
+        return wrapped
+
+    class Guarded:
+        def __init__(self, mod):
+            self._mod = mod
+
+        def __getattr__(self, n):
+            attr = getattr(self._mod, n)
+            if inspect.isroutine(attr):
+                return g(attr)
+            return attr
+    g.module = Guarded
+    return g
+
+
 def enc_iterate(func, arr, vch):
     try:
         pl = func(arr, 0.9999, vch)
@@ -611,6 +689,8 @@ def do_mask(ctx, case):
     from dclab.external.skimage import _find_contours_cy as cy
     from dclab.external.skimage.measure import find_contours
     run = ctx.run
+    g = guard(ctx, case)
+    find_contours = g(find_contours)
     rows = case["rows"]
     m = np.array(rows, dtype=bool)
     rows_t = transpose(rows)
@@ -618,9 +698,10 @@ def do_mask(ctx, case):
     nontrivial = False
     # (1) marching squares: binary and de-cythonised source, both settings
     for vch in (True, False):
-        e_bin = enc_iterate(cy.iterate_and_store, arr, vch)
+        e_bin = enc_iterate(g(cy.iterate_and_store), arr, vch)
         try:
-            e_src = enc_iterate(decy_module().iterate_and_store, arr, vch)
+            e_src = enc_iterate(g(decy_module().iterate_and_store), arr,
+                                vch)
         except Exception as e:     # translator failed closed
             e_src = None
             if not any(b[0] == "translator(C18)" for b in run.broken):
@@ -649,7 +730,7 @@ def do_mask(ctx, case):
         return None if model == enc else ("find_contours", enc)
     ctx.add("run_find_contours", "(%s, true)" % r_img(rows_t), case, chk2)
     # (3) get_contour
-    flat, cont = enc_contour_call(m)
+    flat, cont = enc_contour_call(m, g)
     conn, hf, npix, tb = mask_props(rows)
     run.count("mask:" + case["tag"])
     if conn and hf and npix >= 2:
@@ -677,6 +758,7 @@ def do_mask(ctx, case):
 def do_dedup(ctx, case):
     np = _np()
     from dclab.features.contour import remove_duplicates
+    remove_duplicates = guard(ctx, case)(remove_duplicates)
     pts = case["pts"]
     if pts:
         out = remove_duplicates(np.array(pts, dtype=int).reshape(-1, 2))
@@ -713,6 +795,7 @@ ORDER = dict(m00=0, m10=1, m01=1, m20=2, m11=2, m02=2, mu20=2, mu11=2, mu02=2)
 def do_moments(ctx, case):
     np = _np()
     from dclab.features import inert_ratio as ir
+    ir = guard(ctx, case).module(ir)
     run = ctx.run
     pts = case["pts"]
     c = np.array(pts, dtype=case["dtype"]).reshape(-1, 2)
@@ -794,7 +877,7 @@ def do_moments(ctx, case):
         for fn, tol in ((ir.get_inert_ratio_raw, 1e-7 * (100 if big else 1)),
                         (ir.get_inert_ratio_cvx, 1e-7 * (100 if big else 1)),
                         (ir.get_inert_ratio_prnc, ptol)):
-            if far and fn is ir.get_inert_ratio_prnc:
+            if far and fn.__name__ == "get_inert_ratio_prnc":
                 continue
             a = float(fn(ci))
             if math.isnan(a) or math.isinf(a) or a == 0:
@@ -803,7 +886,7 @@ def do_moments(ctx, case):
             if not fclose(a, b, rel=tol):
                 ctx.fail(case, "%s not translation invariant: %r vs %r "
                          "(t=%s)" % (fn.__name__, a, b, t.tolist()))
-            if fn is not ir.get_inert_ratio_prnc:
+            if fn.__name__ != "get_inert_ratio_prnc":
                 s = float(fn(ci[:, ::-1].copy()))
                 if not fclose(a * s, 1.0, rel=tol):
                     ctx.fail(case, "%s: ratio times axis-swapped ratio = %r"
@@ -820,6 +903,7 @@ def do_rotation(ctx, case):
     (float coordinates), oracle only"""
     np = _np()
     from dclab.features import inert_ratio as ir
+    ir = guard(ctx, case).module(ir)
     c = np.array(case["pts"], dtype=float)
     a = float(ir.get_inert_ratio_prnc(c))
     ok = not math.isnan(a)
@@ -846,8 +930,10 @@ def do_rotation(ctx, case):
     ctx.run.count("rotation")
 
 
-def call_vol_revolve(r, z, ps):
+def call_vol_revolve(r, z, ps, g=None):
     from dclab.features.volume import vol_revolve
+    if g is not None:
+        vol_revolve = g(vol_revolve)
     try:
         return float(vol_revolve(r, z, ps))
     except AssertionError:
@@ -859,7 +945,8 @@ def do_volrev(ctx, case):
     r = np.array(case["r8"], dtype=float) / 8
     z = np.array(case["z8"], dtype=float) / 8
     ps = case["ps4"] / 4
-    v = call_vol_revolve(r, z, ps)
+    g = guard(ctx, case)
+    v = call_vol_revolve(r, z, ps, g)
 
     def chk(model, v=v, ps=ps):
         if model == [0]:
@@ -870,22 +957,21 @@ def do_volrev(ctx, case):
         if abs(float(ex) * math.pi - v) > 1e-9 * max(abs(v), _vscale(case, ps)):
             return "vol_revolve", v
         return None
-    ctx.add("run_vol_revolve", "(%s, %s, 1)" % (common.zlist(case["r8"]),
-                                                common.zlist(case["z8"])),
+    ctx.add("run_vol_revolve", "(%s, %s, 1)" % (zl(case["r8"]), zl(case["z8"])),
             case, chk)
     # oracle laws
     if v is not None:
         sc = _vscale(case, ps)
         s = case["s"]
-        v1 = call_vol_revolve(r, z, 1.0)
-        laws = [("point_scale cubed", call_vol_revolve(r, z, ps * s),
+        v1 = call_vol_revolve(r, z, 1.0, g)
+        laws = [("point_scale cubed", call_vol_revolve(r, z, ps * s, g),
                  v * s ** 3),
-                ("coordinates scaled", call_vol_revolve(r * s, z * s, ps),
+                ("coordinates scaled", call_vol_revolve(r * s, z * s, ps, g),
                  v * s ** 3),
                 ("orientation reversed", call_vol_revolve(r[::-1], z[::-1],
-                                                          ps), -v),
+                                                          ps, g), -v),
                 ("translated along z", call_vol_revolve(r, z + case["t8"] / 8,
-                                                        ps), v),
+                                                        ps, g), v),
                 ("point_scale vs 1", v1 * ps ** 3 if v1 is not None else None,
                  v)]
         for name, got, want in laws:
@@ -909,6 +995,7 @@ def _vscale(case, ps):
 def do_volume(ctx, case):
     np = _np()
     from dclab.features.volume import get_volume
+    get_volume = guard(ctx, case)(get_volume)
     pts = case["pts"]
     c = np.array(pts, dtype=int).reshape(-1, 2)
     pix = case["pix"]
@@ -968,8 +1055,10 @@ def do_sphere(ctx, case):
         and the error shrinks to <= 0.6 of its value when the resolution is
         quadrupled (expected: about a quarter)."""
     np = _np()
-    from dclab.features.volume import get_volume, vol_revolve
+    from dclab.features.volume import get_volume
     from dclab.features.contour import get_contour
+    g = guard(ctx, case)
+    get_volume, get_contour = g(get_volume), g(get_contour)
     a, b = case["a"], case["b"]
     true = 4 / 3 * math.pi * a * b * b
     ok = True
@@ -1036,6 +1125,9 @@ def exact_percentile(vals, q):
 def do_bright(ctx, case):
     np = _np()
     from dclab.features import bright, bright_bc, bright_perc
+    g = guard(ctx, case)
+    bright, bright_bc, bright_perc = (g.module(bright), g.module(bright_bc),
+                                      g.module(bright_perc))
     run = ctx.run
     fn = case["fn"]
     ev = case["events"]
@@ -1123,7 +1215,7 @@ def do_bright(ctx, case):
                 return "bright fn=%d" % fn, got
             return None
         ctx.add("run_bright", "(%d, %s, %s, %s, %s, %s)" % (
-            fn, common.blist(flatm), common.zlist(flati), common.zlist(flatb),
+            fn, common.blist(flatm), zl(flati), zl(flatb),
             common.blit(ok != "none"), common.zlit(case["off8"][i])),
             case, chk)
     run.record_case(case, nontrivial)
@@ -1132,6 +1224,7 @@ def do_bright(ctx, case):
 def do_crosstalk(ctx, case):
     np = _np()
     from dclab.features import fl_crosstalk as fc
+    fc = guard(ctx, case).module(fc)
     run = ctx.run
     cts = [c / 64 for c in case["cts"]]
     kw = dict(zip(["ct21", "ct31", "ct12", "ct32", "ct13", "ct23"], cts))
@@ -1219,6 +1312,10 @@ def do_dataset(ctx, case):
     import dclab
     from dclab.features import (bright, bright_bc, bright_perc, contour,
                                 inert_ratio, volume)
+    g = guard(ctx, case)
+    bright, bright_bc, bright_perc, contour, inert_ratio, volume = [
+        g.module(x) for x in (bright, bright_bc, bright_perc, contour,
+                              inert_ratio, volume)]
     run = ctx.run
     masks = np.array([m["rows"] for m in case["masks"]], dtype=bool)
     n = len(masks)
@@ -1236,6 +1333,7 @@ def do_dataset(ctx, case):
         data["bg_off"] = off
     ds = dclab.new_dataset(data)
     ds.config["imaging"]["pixel size"] = pix
+    data_before = _snap(data)
     conts = [contour.get_contour(m) for m in masks]
     o = off if case["with_off"] else None
     want = {}
@@ -1278,17 +1376,158 @@ def do_dataset(ctx, case):
         c = ds["contour"][i]
         if c.shape != conts[i].shape or not (c == conts[i]).all():
             ctx.fail(case, "ds['contour'][%d] differs from get_contour" % i)
+    if _snap(data) != data_before:
+        ctx.fail(case, "computing ancillary features modified the arrays the "
+                 "dataset was created from")
+        good = False
     run.record_case(case, good)
     run.count("dataset:n%d:%s" % (n, "off" if case["with_off"] else "nooff"))
     # this family is tied to the model through the other families
     run.corr_checked += 0
 
 
+SEQ_OPS = ["raw", "cvx", "prnc", "tilt", "moments", "volume"]
+
+
+def gen_sequence(rng, pool_contours):
+    """several features asked of the SAME contour object, in random order"""
+    r = rng.random()
+    if r < 0.3 and pool_contours:
+        base = [[float(p[0]), float(p[1])] for p in rng.choice(pool_contours)]
+    elif r < 0.6:
+        base = [[p[0] + rng.randint(-3, 3) / 8, p[1] + rng.randint(-3, 3) / 8]
+                for p in simple_polygon(rng, rng.randint(4, 24),
+                                        rng.randint(4, 60),
+                                        rng.randint(0, 300),
+                                        rng.randint(0, 80))]
+    else:
+        # sampled ellipse (clockwise on the screen), tilted
+        n = rng.randint(6, 40)
+        a, b = rng.uniform(2, 40), rng.uniform(2, 20)
+        th = rng.uniform(0, math.pi)
+        cx, cy = rng.uniform(0, 300), rng.uniform(0, 80)
+        base = []
+        for i in range(n):
+            t = -2 * math.pi * i / n
+            x, y = a * math.cos(t), b * math.sin(t)
+            base.append([cx + x * math.cos(th) - y * math.sin(th),
+                         cy + x * math.sin(th) + y * math.cos(th)])
+    dtype = rng.choice(["float64", "float64", "float64", "int64", "float32"])
+    if dtype == "int64":
+        base = [[int(round(x)), int(round(y))] for x, y in base]
+    container = rng.choice(["array", "array", "list", "dictds"])
+    ops = [rng.choice(SEQ_OPS + ["prnc"]) for _ in range(rng.randint(2, 7))]
+    if rng.random() < 0.7 and "prnc" not in ops[:-1]:
+        ops.insert(rng.randrange(len(ops)), "prnc")
+    xs = [p[0] for p in base]
+    ys = [p[1] for p in base]
+    return dict(kind="sequence", pts=base, dtype=dtype, container=container,
+                ops=ops, shift=[rng.randint(-5, 40), rng.randint(-5, 20)],
+                pos=[sum(xs) / len(xs), sum(ys) / len(ys)], pix=0.34)
+
+
+def _seq_inputs(case):
+    """fresh input objects built from the immutable description"""
+    np = _np()
+    a = np.array(case["pts"], dtype=case["dtype"]).reshape(-1, 2)
+    if case["container"] == "array":
+        return a, [a]
+    b = (a + np.array(case["shift"], dtype=a.dtype)).astype(a.dtype)
+    return [a, b], [a, b]
+
+
+def _same(x, y):
+    np = _np()
+    x = np.asarray(x, dtype=float)
+    y = np.asarray(y, dtype=float)
+    return x.shape == y.shape and bool(np.array_equal(x, y, equal_nan=True))
+
+
+def do_sequence(ctx, case):
+    """Every feature is a function of the contour: asked of one and the same
+    array object (ndarray, list of ndarrays, contour column of a dict
+    dataset) after other features were computed from it, it returns
+    bit-for-bit what it returns for a fresh copy, and the object is left
+    untouched."""
+    np = _np()
+    import dclab
+    from dclab.features import inert_ratio as ir, volume as vol
+    run = ctx.run
+    g = guard(ctx, case)
+    irg, volg = g.module(ir), g.module(vol)
+    pix = case["pix"]
+
+    def apply(op, cont, irm, volm):
+        single = isinstance(cont, np.ndarray)
+        if op == "raw":
+            return irm.get_inert_ratio_raw(cont)
+        if op == "cvx":
+            return irm.get_inert_ratio_cvx(cont)
+        if op == "prnc":
+            return irm.get_inert_ratio_prnc(cont)
+        if op == "tilt":
+            return irm.get_tilt(cont)
+        if op == "moments":
+            out = []
+            for c in ([cont] if single else [cont[i] for i in
+                                            range(len(cont))]):
+                m = irm.cont_moments_cv(c)
+                out.append([np.nan] * 4 if m is None else
+                           [m["m00"], m["mu20"], m["mu02"], m["mu11"]])
+            return out
+        px, py = case["pos"][0] * pix, case["pos"][1] * pix
+        if single:
+            return volm.get_volume(cont, px, py, pix)
+        sh = case["shift"]
+        return volm.get_volume(cont, np.array([px, px + sh[0] * pix]),
+                               np.array([py, py + sh[1] * pix]), pix)
+
+    shared, arrays = _seq_inputs(case)
+    originals = [a.copy() for a in arrays]
+    ds = None
+    if case["container"] == "dictds":
+        ds = dclab.new_dataset({"contour": shared,
+                                "deform": np.zeros(len(shared))})
+        shared = ds["contour"]
+    ok = True
+    for i, op in enumerate(case["ops"]):
+        fresh, _ = _seq_inputs(case)
+        try:
+            want = apply(op, fresh, ir, vol)
+        except Exception as e:
+            want = "raised %s" % type(e).__name__
+        try:
+            got = apply(op, shared, irg, volg)
+        except Exception as e:
+            got = "raised %s" % type(e).__name__
+        same = (got == want) if isinstance(want, str) or isinstance(got, str) \
+            else _same(got, want)
+        if not same:
+            ok = False
+            ctx.fail(case, "step %d: %s of the same contour object after %s "
+                     "= %s, of a fresh copy = %s" % (
+                         i, op, case["ops"][:i] or "nothing",
+                         np.asarray(got).tolist() if not isinstance(got, str)
+                         else got,
+                         np.asarray(want).tolist() if not isinstance(
+                             want, str) else want))
+            break
+    for a, o in zip(arrays, originals):
+        if a.dtype != o.dtype or a.shape != o.shape or \
+                a.tobytes() != o.tobytes():
+            ok = False
+            ctx.fail(case, "the caller's contour array was modified by the "
+                     "sequence %s" % (case["ops"],))
+            break
+    run.record_case(case, ok and "prnc" in case["ops"][:-1])
+    run.count("sequence:%s:%s" % (case["container"], case["dtype"]))
+
+
 # --------------------------------------------------------------------------
 DISPATCH = dict(mask=do_mask, dedup=do_dedup, moments=do_moments,
                 rotation=do_rotation, volrev=do_volrev, volume=do_volume,
                 sphere=do_sphere, bright=do_bright, crosstalk=do_crosstalk,
-                dataset=do_dataset)
+                dataset=do_dataset, sequence=do_sequence)
 
 
 def load_corpus():
@@ -1369,6 +1608,7 @@ def run(run):
                                        rng.randint(-20, 60))],
                    angles=[rng.uniform(0, 2 * math.pi) for _ in range(3)])
               for _ in range(40 * f)]
+    later += [gen_sequence(rng, ctx.pool_contours) for _ in range(120 * f)]
     later += [gen_volrev(rng) for _ in range(120 * f)]
     later += [gen_volume(rng, ctx.pool_contours) for _ in range(120 * f)]
     later += [dict(kind="sphere", a=rng.choice([3.0, 4.5, 6.0, 5.0]),
@@ -1471,6 +1711,17 @@ def shrink(run, failure):
                         rows, desc, changed = cand, d, True
                         break
         best = dict(case, rows=rows)
+    elif kind == "sequence":
+        ops = list(case["ops"])
+        changed = True
+        while changed and len(ops) > 1:
+            changed = False
+            for i in range(len(ops)):
+                cand = dict(best, ops=ops[:i] + ops[i + 1:])
+                d = fails(cand)
+                if d:
+                    ops, best, desc, changed = cand["ops"], cand, d, True
+                    break
     elif kind in ("bright", "dataset"):
         key = "events" if kind == "bright" else "masks"
         while len(best[key]) > 2:
@@ -1489,7 +1740,7 @@ def search(run, broken):
     correspondence is broken"""
     rng = run.rng
     for i in range(6000 if run.thorough else 1500):
-        k = i % 7
+        k = i % 8
         if k == 0:
             c = gen_mask(rng, True)
         elif k == 1:
@@ -1502,6 +1753,8 @@ def search(run, broken):
             c = gen_bright(rng)
         elif k == 5:
             c = gen_crosstalk(rng)
+        elif k == 6:
+            c = gen_sequence(rng, [])
         else:
             c = gen_dedup(rng)
         try:
